@@ -35,8 +35,33 @@ def gen(tier, rng, shard, nshards):
         else:
             alg = S.pick(rng, ["omitted", "Auto", "LU", "LU", "GMRES"])
         tol = float(S.pick(rng, [1e-4, 1e-6, 1e-8, 1e-10])) if dt in ("f8", "c16") else float(S.pick(rng, [1e-3, 1e-4]))
+        if dt in ("f8", "c16") and rng.random() < 0.25:
+            node = rescale_units(node, float(S.pick(rng, [1e-9, 1e9])))  # the solution does not depend on the unit of the operator
         yield {"mode": "tree", "spec": node, "alg": alg, "tol": tol, "cols": int(S.pick(rng, [0, 1, 3])),
                "bdt": S.pick(rng, [dt] * 8 + ["f8", "c16"]) if dt in ("f8", "c16") else dt, "seed": S.seed(rng), "psd": psd}
+
+
+def rescale_units(node, s):
+    """The same tree with every Dense / Generic leaf given by its spectrum expressed in other units (only when the tree has no
+    other numeric leaves: the conditioning of the whole must not change)."""
+    ok = [True]
+
+    def rec(nd):
+        if not isinstance(nd, dict):
+            return nd
+        out = {k: ([rec(c) for c in v] if k == "args" else (rec(v) if k == "arg" else v)) for k, v in nd.items()}
+        if "args" not in out and "arg" not in out:
+            if out.get("k") in ("Dense", "Generic") and ("eigs" in out or "svals" in out):
+                for key in ("eigs", "svals"):
+                    if key in out:
+                        out[key] = [({"re": e["re"] * s, "im": e["im"] * s} if isinstance(e, dict) else e * s) for e in out[key]]
+            else:
+                ok[0] = False
+        elif out.get("k") in ("Kronecker", "Scaled", "Product", "Sliced"):
+            ok[0] = False  # (products of scales / views: keep those in ordinary units)
+        return out
+    scaled = rec(node)
+    return scaled if ok[0] else node
 
 
 def make_alg(name, tol, n, single=False):
